@@ -360,13 +360,23 @@ class Ctx:
         return 0
 
     # -- trace validation
-    def validate_trace(self, module, events, cfg, *, chunk=20000, workers=1, timeout=900, name="trace"):
+    def validate_trace(self, module, events, cfg, *, chunk=20000, workers=1, timeout=900, name="trace", boundary=None):
         """Write events as ndjson chunks, run the Trace spec on each; returns list of
-        (global_index, clause) failures printed by the spec as <<"FAIL", l, "clause">>."""
+        (global_index, clause) failures printed by the spec as <<"FAIL", l, "clause">>.
+        boundary(event) -> bool: for trace specs that carry state from one event to the next, chunks are cut
+        only in front of an event for which it holds (a "reset"/"start" event)."""
         fails = []
-        for ci in range(0, len(events), chunk):
-            part = events[ci:ci + chunk]
-            tf = self.work / f"{name}-{ci // chunk}.ndjson"
+        if boundary is None:
+            cuts = list(range(0, len(events), chunk))
+        else:
+            cuts, last = [0], 0
+            for i, e in enumerate(events):
+                if i - last >= chunk and boundary(e):
+                    cuts.append(i)
+                    last = i
+        for n, ci in enumerate(cuts):
+            part = events[ci:(cuts[n + 1] if n + 1 < len(cuts) else len(events))]
+            tf = self.work / f"{name}-{n}.ndjson"
             with open(tf, "w") as f:
                 for e in part:
                     f.write(json.dumps(e, separators=(",", ":")) + "\n")
